@@ -23,11 +23,11 @@ BASE_CFG = """CONSTANTS
   KeyNames <- MCKeyNames
   KeyChars <- MCKeyChars
   TheSchema <- {schema}
-  SetCands <- MCSetCands
-  Trees <- MCTrees
-  Kwargs <- MCKwargs
-  ListOps <- MCListOps
-  DictOps <- MCDictOps
+  SetCands <- MCSetCands{sfx}
+  Trees <- MCTrees{sfx}
+  Kwargs <- MCKwargs{sfx}
+  ListOps <- MCListOps{sfx}
+  DictOps <- MCDictOps{sfx}
   MaxDepth = {depth}
 INIT Init
 NEXT Next
@@ -35,8 +35,11 @@ VIEW View
 """
 
 
+SFX = {"SchemaA": "", "SchemaV": "V"}
+
+
 def write_cfg(path, schema, depth, invs=(), props=(), export=False, bound=True):
-    text = BASE_CFG.format(schema=schema, depth=depth)
+    text = BASE_CFG.format(schema=schema, depth=depth, sfx=SFX.get(schema, ""))
     if bound:
         text += "CONSTRAINT Bound\n"
     for i in invs:
@@ -59,7 +62,7 @@ def schema_descriptor(module, schema_name):
             % (module, schema_name)
         )
     with open(os.path.join(d, "ShowSchema.cfg"), "w") as fp:
-        fp.write(BASE_CFG.format(schema=schema_name, depth=1).split("INIT")[0] + "INIT I\nNEXT N\n")
+        fp.write(BASE_CFG.format(schema=schema_name, depth=1, sfx=SFX.get(schema_name, "")).split("INIT")[0] + "INIT I\nNEXT N\n")
     for name in os.listdir(tlc.SPEC_DIR):
         if name.endswith(".tla"):
             os.symlink(os.path.join(tlc.SPEC_DIR, name), os.path.join(d, name))
@@ -84,6 +87,8 @@ def normalise_graph_states(edges, inits):
     for e in edges:
         if "errpath" in e["ev"]:
             e["ev"]["errpath"] = render_path(e["ev"]["errpath"])
+        if "vlog" in e["ev"]:
+            e["ev"]["vlog"] = sorted([render_path(pv[0]), pv[1]] for pv in codec.seq(e["ev"]["vlog"]))
         e["from"] = cfgadapter.canon_state(e["from"])
         e["to"] = cfgadapter.canon_state(e["to"])
         ev = e["ev"]
@@ -143,7 +148,7 @@ def run_machine(prop, invs, props, tier, seed, schema="SchemaA", signature_prefi
     tcfg = os.path.join(d, "trace.cfg")
     with open(tcfg, "w") as fp:
         fp.write(
-            BASE_CFG.format(schema=schema, depth=99).replace("INIT Init", "INIT TraceInit").replace("NEXT Next", "NEXT TraceNext").replace("VIEW View", "VIEW TraceView")
+            BASE_CFG.format(schema=schema, depth=99, sfx=SFX.get(schema, "")).replace("INIT Init", "INIT TraceInit").replace("NEXT Next", "NEXT TraceNext").replace("VIEW View", "VIEW TraceView")
             + "ACTION_CONSTRAINT Report\nCONSTRAINT ReportState\n"
         )
     verdicts, tstats = tracecheck.validate("Trace_Config.tla", tcfg, traces, wanted=set(invs) | set(props))
@@ -280,6 +285,7 @@ def rnd_tree(rng, desc, depth=0):
 def driver(cinco, desc, seed, n_traces, length):
     rng = random.Random(seed)
     fields = list(walk_fields(desc))
+    has_l2 = any(p == () and k == "l2" for p, k, _ in fields)
     traces = []
     for _ in range(n_traces):
         init = {"cfgs": {"c1": {"t": "cfg"}, "c2": rng.choice([{"t": "cfg"}, {"t": "none"}])}}
@@ -311,9 +317,11 @@ def driver(cinco, desc, seed, n_traces, length):
                     path, key, f = rng.choice(fields)
                     ev = {"op": "Reset", "n": n, "p": list(path), "k": key}
                 elif r < 0.75:
-                    ev = {"op": "Validate", "n": n}
+                    ev = {"op": rng.choice(["Validate", "ValidateCollect"]), "n": n}
                 else:
                     cands = [(p, k, f) for p, k, f in fields if f["kind"] in ("list", "dict")]
+                    if not cands:
+                        continue
                     path, key, f = rng.choice(cands)
                     if f["kind"] == "list":
                         item = (lambda: rnd_item(rng)) if f["item"]["kind"] == "schema" else (lambda: rnd_leaf_value(rng, f["item"]))
@@ -332,7 +340,7 @@ def driver(cinco, desc, seed, n_traces, length):
                             + (
                                 [{"m": "item_set", "i": rng.randint(0, 2), "k": rng.choice(["p", "q"]), "v": rng.choice([I(rng.randint(0, 10)), S("t")])}] * 3
                                 if f["item"]["kind"] == "schema"
-                                else [{"m": "slice_from", "src": "l2"}, {"m": "extend_from", "src": "l2"}]
+                                else ([{"m": "slice_from", "src": "l2"}, {"m": "extend_from", "src": "l2"}] if has_l2 else [])
                             )
                             + [
                             ]
